@@ -9,14 +9,15 @@
 (***************************************************************************)
 EXTENDS LexerAtoms, LexerHandover, TLC, Json, IOUtils
 
-CONSTANT MaxSegs
+CONSTANTS MaxSegs,    \* longest source, in segments
+          AtomSet     \* the atoms used (subset of 1..NAtoms)
 VARIABLE ids
 
 MCInit == ids = <<>>
 Emit(a) == /\ Len(ids) < MaxSegs
            /\ (IF ids = <<>> THEN TRUE ELSE ~IsLast(ids[Len(ids)]))
            /\ ids' = Append(ids, a)
-MCNext == \E a \in 1..NAtoms : Emit(a)
+MCNext == \E a \in AtomSet : Emit(a)
 MCSpec == MCInit /\ [][MCNext]_ids
 
 src == Src(ids)
